@@ -157,6 +157,7 @@ def tagTag (t : TagIn Float) (r : Except Err (List Nat × List Nat)) : String :=
 
 /-- split the view list of a multi-view answer: tokens separated by "|" -/
 def splitViews (toks : List String) : List (List String) :=
+  if toks.isEmpty then [] else      -- no view at all (`ok 0`)
   toks.foldr (fun t acc => if t == "|" then [] :: acc else match acc with | [] => [[t]] | h :: r => (t :: h) :: r) [[]]
 
 def parseMTag (args : List String) : Option (MTagIn Float × String) :=
